@@ -185,13 +185,21 @@ CHECKS = {
 TEXT_OVERRIDES = {
  "C01": "Every array of the listed small shapes over a 3-value abstract alphabet is embedded at every dtype boundary (255/256, 65535/65536, 2^31, 2^32, 2^62, negatives next to signed boundaries) and crossed with every option combination (common omitted/each/absent, counts - the caller's own dict, which must stay intact -, five mappings incl. many-to-one, five read-backs, two input dtypes); a LAYOUT family adds Fortran-ordered, strided, reversed and uint64 inputs and zero-column shapes; a ROW-SCAN family (79-120 rows, >=5 values, <=5% uncommon cells at every slot subset, C and Fortran order, all-to-one mappings) reaches the second construction strategy on both sides of its threshold, confirmed by line coverage. 1.8M round trips in the quick tier.",
  "C03": "Every data vector and every common value per dimension (0..3 dims, <=3-4 rows, 2-3 categories) is crossed with every call in a structured space: 4 aggregates x 2 policies x weights (none, scalars 2/0/NaN, arrays over {positive,0,missing}^N with dyadic and with decimal weights, (values,validity) forms) x facts (1-3 columns, 4 representations, missing patterns); the array cube is given int64 and int8 data with explicit shape and the unsigned dtype an index converts to with inferred shape; WIDE cubes (up to 65537 categories, strides and cell counts crossing and inside the upper half of the uint8/uint16 ranges, every narrow signed/unsigned dtype) are compared sparsely. ~0.9M library evaluations quick, ~50M thorough.",
- "C08": "Exhaustive over every ordered pair of subsets of a 7/9-value universe and of a 6/8-value boundary universe (0, 2^31-1, 2^31, 2^32-1 ...), each pair as contiguous arrays and as non-contiguous (strided) views, for the three kernels and the None-aware wrappers; every (long contiguous run with at most one hole) x (1-2 sparse probes) pair in both orders (block-skipping optimisations); every list of 0..k subsets for the multi-way union. The kernels only compare elements and lengths, so all interleaving/exhaustion patterns within the bounds are decided, not sampled.",
- "C11": "For every C10 input the saved bytes must equal an independent struct.pack encoder's bytes, an independent decoder must recover the input, and the library loader must recover it from independently encoded files in every admissible index/row-id word size (incl. 1- and 2-byte row-id words whose row-id count exceeds the word); saving with 1/2/8-byte row-id dtypes must either be refused or produce the documented layout; the size word is checked for row-id totals crossing 2^30 and 2^32 with sparse stand-in arrays. Symmetric writer/reader changes cannot hide.",
- "C12": "Every file of the bounded family (plus four files of 4-17 KiB and the file of every initial state of the index state graph) is truncated at every byte position 0..len-1 (30M crash points in the quick tier) and IndxIO.load must raise for each; a load that returns is reported with (input, cut).",
- "C14": "Every data vector and common value for 1..4 dimensions (N<=3, E=2; deeper in thorough), a LONG family (18-24 rows: a long run against sparse rows) and an EMPTY-ENTRY family are walked through interactions(), walk(f) and walk([f,g]); the delivered (coords, rows) multiset, read after the walk has finished, must equal the comprehension in the statement, so a missing, duplicated or later-overwritten combination cannot hide.",
- "C15": "After every library-chosen normalisation in the fixpoint graph - and, beyond the graph, for shift_common()/filtered/append/collapsed on every array of the shapes (3,2), (4,2), (2,3), (5,) and for from_array with every mapping/counts option - the common value must be a most frequent value; every reached state must == its harness-built twin with != the exact negation; a == b iff (shape, common, dense) coincide over all pairs in small shape buckets, all neighbour pairs in large ones and three single-component variants of every state; every state compared with nine kinds of non-index operands incl. same-key plain dicts is unequal.",
- "C18": "Every data vector (D<=2, N<=4-5) is crossed with missing patterns, weight patterns (incl. single zero weights and (0-filled, validity) weights for the quantile's missing rule), policies and both report formats for stddev (also on a large-offset and a constant-decimal column against an exact rational oracle), quantile (7 probabilities; weighted: three relations), min/max over float/int/datetime facts (validity pair and NaT-marked), covariance and correlation; int8/int16/uint8 dimension arrays on 200- and 40000-cell cubes; each cell is compared with the statistic computed from its own rows.",
- "C20": "Serial: every invocation index of the interrupt callback (and pairs) on cubes with 1,2,3,4,6,8 sub-cubes of both types incl. all-common slices; pooled: every subset of invocation ordinals (singletons/first+last/all for 8 sub-cubes) crossed with every schedule up to the preemption bound. calculate must raise one of the very objects raised, the callback must be consulted once per sub-cube when nothing is interrupted (never more than once otherwise), and re-evaluating the same cube and aggregate objects afterwards - pooled and serially - must equal a fresh evaluation bit-for-bit."
+ "C20": "Serial: every invocation index of the interrupt callback (and pairs) on cubes with 1,2,3,4,6,8 sub-cubes of both types incl. all-common slices; pooled: every subset of invocation ordinals (singletons/first+last/all for 8 sub-cubes) crossed with every schedule up to the preemption bound. calculate must raise one of the very objects raised, the callback must be consulted once per sub-cube when nothing is interrupted (never more than once otherwise), and re-evaluating the same cube and aggregate objects afterwards - pooled and serially - must equal a fresh evaluation bit-for-bit.",
+ "C02": "For each listed configuration every data array and every common value per dimension is enumerated (83k cubes quick), so every combination of sparsity pattern and common choice - which is what the marginal-differencing identity must survive - is decided within the bounds, through both report formats; a LONG family (20 rows: a run of 9..19 rows against one or two rows at every position, both orders, a third dimension) reaches the merge kernels' length-ratio shortcuts.",
+ "C05": "For every data vector and call, every combination (v_1..v_D) in (0..E+1)^D of common values (incl. two values absent from the data) is applied with the library's own shift_common and the cube output must equal the base; then re-normalised and compared again; dense content must be unchanged. Additionally ONE set of index objects is evaluated, re-expressed in place through the whole list of combinations and re-evaluated after each step, so that anything an index or cube memoises must follow the common value.",
+ "C06": 'All concrete index states reachable within (rows<=2, cols<=2; thorough: up to 4 rows / 3 columns with a value bound on the larger shapes) are enumerated to a fixpoint (3.6k states, 0.94M transitions quick; 15k states, 15M transitions thorough), so every history of ANY length whose intermediate states stay inside the bounds is covered, not histories up to a depth; each transition executes the real method on an object rebuilt from the state key and is compared with the NumPy model (dense content, operands untouched, no shared storage for requested copies, and - by mutating every derived result in place - no aliasing back into its sources); from every state, additionally, every reader is used, the SAME object is changed in place and every reader is used again (stale memoised state). Model traces are validated against the implementation on every step.',
+ "C07": 'On every state produced by any transition of the fixpoint graph: validate(True) plus the range, arity, non-emptiness and no-common-entry conditions it does not check, and abscissae / sparsity / inferred cube shape against the dense model. A violating transition is reported with its history and not expanded. Construction from arrays is decided on BOTH strategies of from_array (every small array x embedding x common x counts x mapping; the 79..120-cell row-scan arrays): 148k results must satisfy the same invariants.',
+ "C08": 'Exhaustive over every ordered pair of subsets of a 7/9-value universe and of a 6/8-value boundary universe (0, 2^31-1, 2^31, 2^32-1 ...), each pair as contiguous arrays and as non-contiguous (strided) views, for the three kernels and the None-aware wrappers; every (long contiguous run with at most one hole) x (1-2 sparse probes) pair in both orders; every ordered pair of structured sets (dense, evens, odds, multiples of three, shifted, two far blocks) with lengths on either side of 16..128 (..1024 thorough) and 1-3 element probes against each (block / SIMD / galloping / bisecting shortcuts); every list of 0..k subsets for the multi-way union. The kernels only compare elements and lengths, so all interleaving/exhaustion patterns within the bounds are decided, not sampled.',
+ "C10": 'Exhaustive over arity 1..4 x 0..2(3) entries x coordinate alphabet {0,255,256,65535,65536,2^32-1,2^32,2^63-1} on every axis position x every common from the same alphabet x every assignment of five row-id shapes (incl. empty, 2^32-1): the coupling of coordinate width, common width, arity and empties is enumerated completely, which is where a mis-sized field would corrupt later fields; plus files whose entries have very different lengths (0..70000 row ids, every ordered pair and short/long/short triples), where batching or streaming writers and per-file readers go wrong.',
+ "C11": "For every C10 input (incl. the mixed-length files) the saved bytes must equal an independent struct.pack encoder's bytes, an independent decoder must recover the input, and the library loader must recover it from independently encoded files in every admissible index/row-id word size (incl. 1- and 2-byte row-id words whose row-id count exceeds the word); saving with 1/2/8-byte row-id dtypes must either be refused or produce the documented layout; the size word is checked for row-id totals crossing 2^30 and 2^32 with sparse stand-in arrays. Symmetric writer/reader changes cannot hide.",
+ "C12": 'The real writer runs on an unbuffered file whose content is snapshotted at every file-object method call and every source line of indxio.py (4M observed write steps quick); every content a crash can leave between two snapshots, and every prefix 0..len-1 of every finished file of the bounded family (plus four files of 4-17 KiB and the file of every initial state of the index state graph; 30M crash points in the quick tier) is handed to IndxIO.load, which must raise; a load that returns is reported with (input, cut or write step).',
+ "C14": 'Every data vector and common value for 1..4 dimensions (N<=3, E=2; deeper in thorough), a LONG family (18-24 rows: a long run against sparse rows), a POPULOUS family (17..70(260) rows, many rows in every cell, every ordered pair of six row patterns) and an EMPTY-ENTRY family are walked through interactions(), walk(f) and walk([f,g]); the delivered (coords, rows) multiset, read after the walk has finished, must equal the comprehension in the statement with strictly increasing row ids, so a missing, duplicated, mis-ordered or later-overwritten combination cannot hide.',
+ "C15": 'After every library-chosen normalisation in the fixpoint graph - and, beyond the graph, for shift_common()/filtered/append/collapsed on every array of the shapes (3,2), (4,2), (2,3), (5,) and for from_array with every mapping/counts option - the common value must be a most frequent value; every reached state must == its harness-built twin with != the exact negation; a == b iff (shape, common, dense) coincide over all pairs in small shape buckets, all neighbour pairs in large ones, ALL pairs of the indexes of shape (3,), (4,), (3,2) over a small alphabet x every common, and three single-component variants of every state; every state compared with nine kinds of non-index operands incl. same-key plain dicts is unequal.',
+ "C16": 'Every schedule with up to 1 preemption at line and at bytecode-instruction granularity (thorough: 2 at line granularity, pool sizes 1,2,3,4,16) of 3-8-task harnesses on both cube types with 1-3 aggregates computed together (incl. (values, validity) facts hiding real numbers, so that lazily applied masks matter) is executed on the real code with fresh objects and compared bit-for-bit with serial evaluation; the number of distinct task completion orders is reported to show the exploration is not vacuous. The model pool is conformance-checked against the stdlib pool. Supplement (sampling, reported as such): free-running real threads on the same harnesses, every kernel on 400 000-element arrays in four real threads, and a 200 000-row 12-sub-cube cube on the real pool - the GIL-free sections a cooperative scheduler cannot interleave.',
+ "C17": "Index methods: on every transition of the C06 fixpoint graph the receiver of non-mutating methods and every argument must be byte-identical. Aggregates: all call histories to depth 2 (3 in thorough) over an alphabet of every ordered selection of 1..2(3) of 17+41 function objects on 10 cubes (twins with equal output shape, cubes with another row count, dimensionless cubes that hand fill() the object's whole arrays) plus shortcut methods; each result must equal each aggregate evaluated alone on fresh objects bit for bit, arrays returned by earlier calls must stay intact, caller-owned arrays must be byte-identical (snapshotted before any object is constructed), and the hash of the entire reachable object state is tracked: it never changes, so every event is a self-loop and depth 1 decides all histories over the alphabet.",
+ "C18": "Every data vector (D<=2, N<=4-5) is crossed with missing patterns, weight patterns (incl. single zero weights and (0-filled, validity) weights for the quantile's missing rule), policies and both report formats for stddev (also on a large-offset and a constant-decimal column against an exact rational oracle), quantile (7 probabilities; weighted: three relations), min/max over float/int/datetime facts (validity pair and NaT-marked), covariance and correlation; int8/int16/uint8 dimension arrays on 200- and 40000-cell cubes; one dimension of 100..300 categories under a three-column fact (cell x column numbering in narrow coordinates); each cell is compared with the statistic computed from its own rows.",
+ "C19": 'fit_dtype is AST-checked to be a pure threshold ladder, so it is constant on each cell of the partition induced by its constants; the grid contains every constant +-1, every +-2^k(+-1) up to 2^64 and an interior point per gap, so every cell is decided. The caller whose counter must reach the number of columns - collapsed() - is run on indexes with 127..257 (thorough ..65537) columns, five value triples and five precedence orders.',
 }
 
 NOT_YET = "check not built yet (work in progress in this session; see DESIGN.md section 11 for order)"
